@@ -731,7 +731,7 @@ var c11Alpha = map[string]string{
 	"footnote":    "a[]^:\n (",
 	"deflist":     "a\n ~-*>",
 	"typographer": "a\n *_`&;",
-	"linkify":     "a \n#*_(w.",
+	"linkify":     "a \n\t#*_(w.",
 	"cjk":         "a\n *_\\.[",
 	"cjkesc":      "a\n *_\\.[",
 	"cjkcss3":     "a\n *_\\.[",
